@@ -248,8 +248,21 @@ Definition leaves (all : list site) : list (option leaf) :=
     | _ => []
     end) all.
 
-(* the hand-written copy of the call sites, as read in rule_expression.go *)
-Definition model_sites : list site := [
+(* the hand-written copy of the call sites, as read in rule_expression.go.
+   Three call sites are expected to change when the C03 defects of DESIGN.md
+   Appendix A are repaired in the repository; [model_sites] covers both states
+   of each, so that neither the pinned nor the repaired tree needs an edit here:
+     #4  on.workflow_call.inputs.<id>.required / secrets.<id>.required are not
+         handed to the expression checker on the pinned tree; the repair adds
+           rule.checkBool(i.Required, "")   (second occurrence of i.Required in VisitWorkflowPre)
+           rule.checkBool(s.Required, "")
+     #2  the include element `- ${{ }}` is checked through m.Include.Expression
+         (nil) on the pinned tree; the repair passes combi.Expression (second
+         occurrence of combi.Expression in checkMatrix).
+   If a repair is written differently (other variable names, another helper),
+   edit [variable_sites] below and, for a new site with a literal key, add its
+   canonical path to [root_paths]. *)
+Definition base_sites : list site := [
   mk_site "VisitWorkflowPre" "checkString" "n.Name" 0 (KL "") [];
   mk_site "VisitWorkflowPre" "checkStrings" "e.Types" 0 (KL "") [];
   mk_site "VisitWorkflowPre" "checkWebhookEventFilter" "e.Branches" 0 KN [];
@@ -349,7 +362,6 @@ Definition model_sites : list site := [
   mk_site "checkMatrix" "checkRawYAMLValue" "a.Value" 0 KN [];
   mk_site "checkMatrix" "checkMatrixRow" "r" 0 KN [];
   mk_site "checkMatrix" "checkOneExpression" "m.Include.Expression" 0 (KL "jobs.<job_id>.strategy") [];
-  mk_site "checkMatrix" "checkOneExpression" "m.Include.Expression" 1 (KL "jobs.<job_id>.strategy") [];
   mk_site "checkMatrix" "checkRawYAMLValue" "assign.Value" 0 KN [];
   mk_site "checkMatrixRow" "checkArrayExpression" "r.Expression" 0 (KL "jobs.<job_id>.strategy") [];
   mk_site "checkMatrixRow" "checkRawYAMLValue" "v" 0 KN [];
@@ -360,6 +372,27 @@ Definition model_sites : list site := [
   mk_site "checkRawYAMLValue" "checkRawYAMLString" "v" 1 KN [];
   mk_site "checkRawYAMLString" "checkExprsIn" "y.Value" 0 (KL "jobs.<job_id>.strategy") []
 ].
+
+Definition variable_sites (req_in req_sec inc_elem : bool) : list site :=
+  (if req_in then [mk_site "VisitWorkflowPre" "checkBool" "i.Required" 1 (KL "") []] else [])
+  ++ (if req_sec then [mk_site "VisitWorkflowPre" "checkBool" "s.Required" 0 (KL "") []] else [])
+  ++ [mk_site "checkMatrix" "checkOneExpression"
+              (if inc_elem then "combi.Expression" else "m.Include.Expression") 1
+              (KL "jobs.<job_id>.strategy") []].
+
+Definition model_sites (req_in req_sec inc_elem : bool) : list site :=
+  base_sites ++ variable_sites req_in req_sec inc_elem.
+
+(* the site lists are compared up to the order of the statements *)
+Definition site_sort_key (s : site) : string :=
+  (s_fn s ++ "/" ++ s_arg s ++ "/" ++ String (ascii_of_nat (48 + s_occ s)) "" ++ "/" ++ s_callee s)%string.
+
+Fixpoint insert_site (x : site) (l : list site) : list site :=
+  match l with
+  | [] => [x]
+  | y :: l' => if String.leb (site_sort_key x) (site_sort_key y) then x :: l else y :: insert_site x l'
+  end.
+Definition sort_sites (l : list site) : list site := fold_right insert_site [] l.
 
 (* canonical paths (DESIGN.md Appendix D), in the vocabulary of GitHub's table:
    the site with the literal key gives the base path ... *)
@@ -423,6 +456,9 @@ Definition root_paths : list ((string * string * nat) * string) := [
   (("checkMatrix", "combi.Expression", 0), "jobs.<job_id>.strategy.matrix.exclude");
   (("checkMatrix", "m.Include.Expression", 0), "jobs.<job_id>.strategy.matrix.include");
   (("checkMatrix", "m.Include.Expression", 1), "jobs.<job_id>.strategy.matrix.include");
+  (("checkMatrix", "combi.Expression", 1), "jobs.<job_id>.strategy.matrix.include");
+  (("VisitWorkflowPre", "i.Required", 1), "on.workflow_call.inputs.<inputs_id>.required");
+  (("VisitWorkflowPre", "s.Required", 0), "on.workflow_call.secrets.<secret_id>.required");
   (("checkMatrixRow", "r.Expression", 0), "jobs.<job_id>.strategy.matrix.<row>");
   (("checkWorkflowCallOutputs", "o.Value", 0), "on.workflow_call.outputs.<output_id>.value");
   (("checkRawYAMLString", "y.Value", 0), "jobs.<job_id>.strategy.matrix.<row>")
